@@ -25,69 +25,91 @@ META_KEYS = {"__default_config__", "__path__", "__orig__"}
 # ------------------------------------------------------------------------------------------------
 def same(a, b, path="", paths_as_text=False):
     """Returns None when equal, else (path, reason). NaN equals NaN. Sets compare as sets."""
+    r = same_steps(a, b, paths_as_text=paths_as_text)
+    if r is None:
+        return None
+    return path + steps_str(r[0]), r[1]
+
+
+def steps_str(steps):
+    out = ""
+    for kind, k in steps:
+        if kind == "key":
+            out += ("." if out else "") + str(k)
+        elif kind == "idx":
+            out += f"[{k}]"
+        elif kind == "tup":
+            out += f"({k})"
+        else:
+            out += "{}"
+    return out
+
+
+def same_steps(a, b, steps=(), paths_as_text=False):
+    """Like same() but the location is a tuple of steps ('key', k) | ('idx', i) | ('tup', i) | ('set', None)."""
     ta, tb = type(a), type(b)
     if isinstance(a, JPath) and isinstance(b, JPath):
         if ta is not tb and ta.__name__ != tb.__name__:
-            return path, f"path class {ta.__name__} vs {tb.__name__}"
+            return steps, f"path class {ta.__name__} vs {tb.__name__}"
         if a.relative != b.relative:
-            return path, f"path relative {a.relative!r} vs {b.relative!r}"
+            return steps, f"path relative {a.relative!r} vs {b.relative!r}"
         if not paths_as_text and a.absolute != b.absolute:
-            return path, f"path absolute {a.absolute!r} vs {b.absolute!r}"
+            return steps, f"path absolute {a.absolute!r} vs {b.absolute!r}"
         return None
     if ta is not tb:
-        return path, f"type {ta.__name__} vs {tb.__name__} ({short(a)} vs {short(b)})"
-    if isinstance(a, Namespace):
-        return same(vars(a), vars(b), path)
-    if isinstance(a, argparse.Namespace):
-        return same(vars(a), vars(b), path)
+        return steps, f"type {ta.__name__} vs {tb.__name__} ({short(a)} vs {short(b)})"
+    if isinstance(a, (Namespace, argparse.Namespace)):
+        da = {k.lstrip("\u200b"): v for k, v in vars(a).items()}
+        db = {k.lstrip("\u200b"): v for k, v in vars(b).items()}
+        return same_steps(da, db, steps, paths_as_text)
     if isinstance(a, dict):
         ka, kb = list(a.keys()), list(b.keys())
         if len(ka) != len(kb) or set(map(_kid, ka)) != set(map(_kid, kb)):
-            return path, f"keys {short(ka)} vs {short(kb)}"
+            return steps, f"keys {short(ka)} vs {short(kb)}"
         bk = {_kid(k): k for k in kb}
         for k in ka:
-            d = same(a[k], b[bk[_kid(k)]], f"{path}.{k}" if path else str(k))
+            d = same_steps(a[k], b[bk[_kid(k)]], steps + (("key", k),), paths_as_text)
             if d:
                 return d
         return None
     if isinstance(a, (list, tuple)):
         if len(a) != len(b):
-            return path, f"length {len(a)} vs {len(b)}"
+            return steps, f"length {len(a)} vs {len(b)}"
+        kind = "idx" if isinstance(a, list) else "tup"
         for i, (x, y) in enumerate(zip(a, b)):
-            d = same(x, y, f"{path}[{i}]")
+            d = same_steps(x, y, steps + ((kind, i),), paths_as_text)
             if d:
                 return d
         return None
     if isinstance(a, (set, frozenset)):
         if len(a) != len(b):
-            return path, f"set size {len(a)} vs {len(b)}"
+            return steps, f"set size {len(a)} vs {len(b)}"
         ra = sorted(((type(x).__name__, repr(x)) for x in a))
         rb = sorted(((type(x).__name__, repr(x)) for x in b))
         if ra != rb:
-            return path, f"set {short(a)} vs {short(b)}"
+            return steps, f"set {short(a)} vs {short(b)}"
         return None
     if isinstance(a, float):
         if math.isnan(a) and math.isnan(b):
             return None
         if a != b or math.copysign(1, a) != math.copysign(1, b):
-            return path, f"float {a!r} vs {b!r}"
+            return steps, f"float {a!r} vs {b!r}"
         return None
     if isinstance(a, complex):
         if repr(a) != repr(b):
-            return path, f"complex {a!r} vs {b!r}"
+            return steps, f"complex {a!r} vs {b!r}"
         return None
     if isinstance(a, enum.Enum):
-        return None if a is b else (path, f"enum {a!r} vs {b!r}")
+        return None if a is b else (steps, f"enum {a!r} vs {b!r}")
     try:
         eq = a == b
     except Exception as ex:
-        return path, f"== raised {type(ex).__name__}"
+        return steps, f"== raised {type(ex).__name__}"
     if eq is True:
         return None
-    # objects without __eq__: compare by vars if both have them
     if hasattr(a, "__dict__") and type(a).__eq__ is object.__eq__:
-        return same(vars(a), vars(b), path + ".<vars>")
-    return path, f"value {short(a)} vs {short(b)}"
+        return same_steps(vars(a), vars(b), steps + (("key", "<vars>"),), paths_as_text)
+    return steps, f"value {short(a)} vs {short(b)}"
 
 
 def diff_class(d):
